@@ -141,11 +141,29 @@ func (g *fgen) callInner(in ssa.CallInstruction, st *state) []val {
 
 func (g *fgen) applyModset(ms *modset, st *state, who string) {
 	if ms.all {
+		if ms.heapOnly {
+			g.havocHeap(st)
+			for k, me := range ms.any {
+				if strings.HasPrefix(k, "G_ghost_") {
+					me.register(g, k)
+					g.havocKey(st, k)
+				}
+			}
+			return
+		}
 		g.havocAll(st)
-		g.assum["call to "+who+" has no contract and an unbounded inferred frame (havoc all): "+ms.why] = true
+		g.assum["call to "+who+" has an unbounded frame (havoc all): "+ms.why] = true
 		return
 	}
 	oldAlloc := st.alloc
+	if ms.hasCoarse() {
+		// selective epoch: keys in the coarse classes inherit nothing, all others are kept
+		prev := st.clone()
+		ep := g.newEpoch([]epochPred{{"true", prev}})
+		g.epochs[ep].except = ms.coarse
+		st.heap = map[string]string{}
+		st.epoch = ep
+	}
 	for k, me := range ms.any {
 		me.register(g, k)
 		g.havocKey(st, k)
